@@ -49,6 +49,11 @@ class CreateUE(Stream):
             im = imsi(2 + j % 2, 10, "random")
             for opc_, op_ in ((x, ""), ("", x), (x, x), ("", x)):
                 cases.append({"imsi": im, "start": j, "count": 2, "k": k_, "opc": opc_, "op": op_, "kind": "opc-or-op"})
+        # IMSIs shorter than 15 digits with populations larger than a fixed-position cut of the SUPI could tell apart
+        for total, count in ((14, 1100), (13, 150), (12, 30), (11, 12), (10, 5)):
+            mnclen = 2 + total % 2
+            im = (rng.digits(3) + rng.digits(mnclen) + "0" * (total - 3 - mnclen))[:total]
+            cases.append({"imsi": im, "start": 0, "count": count, "k": rng.bytes(16).hex(), "opc": rng.bytes(16).hex(), "op": "", "kind": "short-imsi-population"})
         for i in range(big):
             # whole population through the implementation: pairwise distinctness is checked on the Go output
             # directly; the model is compared on 40 windows of 3 indices spread over the population
@@ -126,6 +131,8 @@ class SecCap(Stream):
         return "supported" if c["ea"] < 4 and c["ia"] < 4 else "other-id"
 
     def direct_check(self, c, o):
+        if "later_sent" in o:
+            return "the UE advertises only NEA%d/NIA%d, which the library does not implement, and yet sends a 'protected' message: %s" % (c["ea"], c["ia"], o["later_sent"][:80])
         # advertise, then authenticate, then use: the algorithms that protect the UE's messages after authentication are the
         # ones advertised before it (the harness recovers them from a protected message)
         if c["ea"] < 3 and c["ia"] < 3:
